@@ -58,10 +58,14 @@ var rwSpec = hcldec.ObjectSpec{
 	"limits": &hcldec.BlockSpec{TypeName: "limits", Nested: hcldec.ObjectSpec{"max": &hcldec.AttrSpec{Name: "max", Type: cty.Number, Required: true}}},
 }
 
+// the specification's strings are ASCII; {eacute} stands for a non-ASCII character in the files
+func rwOut(s string) string { return strings.ReplaceAll(s, "{eacute}", "é") }
+func rwIn(s string) string  { return strings.ReplaceAll(s, "é", "{eacute}") }
+
 func rwStrs(v map[string]any) []string {
 	out := []string{}
 	for _, x := range listOf(v["v"]) {
-		out = append(out, x.(string))
+		out = append(out, rwOut(x.(string)))
 	}
 	return out
 }
@@ -272,26 +276,43 @@ func jsonItems(items []any, lay int) orderedObj {
 	if lay == 1 {
 		obj = append(obj, kv{"//", "a comment property"})
 	}
-	blocks := map[string][]any{}
+	// properties in item order: a run of blocks of one type is one property (an array when there are several, or in layout 2),
+	// a dynamic block is its own "dynamic" property; property names may therefore repeat, which the JSON syntax allows
+	var runType string
+	var run []any
+	flush := func() {
+		if len(run) == 0 {
+			return
+		}
+		if len(run) == 1 && lay != 2 {
+			obj = append(obj, kv{runType, run[0]})
+		} else {
+			obj = append(obj, kv{runType, run})
+		}
+		run, runType = nil, ""
+	}
 	order := []string{}
 	dyn := orderedObj{}
 	for _, it := range items {
 		m := nodeOf(it)
 		switch m["k"] {
 		case "attr":
+			flush()
 			obj = append(obj, kv{m["name"].(string), jsonValue(nodeOf(m["val"]))})
 		case "block":
 			t := m["type"].(string)
-			if _, ok := blocks[t]; !ok {
-				order = append(order, t)
+			if t != runType {
+				flush()
+				runType = t
 			}
 			var inner any = jsonItems(listOf(m["body"]), lay)
 			ls := listOf(m["labels"])
 			for i := len(ls) - 1; i >= 0; i-- {
 				inner = orderedObj{kv{ls[i].(string), inner}}
 			}
-			blocks[t] = append(blocks[t], inner)
+			run = append(run, inner)
 		case "dyn":
+			flush()
 			t := m["type"].(string)
 			each := listOf(m["each"])
 			fe := []any{}
@@ -332,19 +353,12 @@ func jsonItems(items []any, lay int) orderedObj {
 				content = append(content, kv{st, so})
 			}
 			d = append(d, kv{"content", content})
-			dyn = append(dyn, kv{t, d})
+			obj = append(obj, kv{"dynamic", orderedObj{kv{t, d}}})
 		}
 	}
-	for _, t := range order {
-		if len(blocks[t]) == 1 && lay != 2 {
-			obj = append(obj, kv{t, blocks[t][0]}) // a single block may be written without the array
-		} else {
-			obj = append(obj, kv{t, blocks[t]})
-		}
-	}
-	if len(dyn) > 0 {
-		obj = append(obj, kv{"dynamic", dyn})
-	}
+	flush()
+	_ = order
+	_ = dyn
 	return obj
 }
 
@@ -370,7 +384,13 @@ func renderFile(f map[string]any) (string, string) {
 	return src, "hcl"
 }
 
-func rwVal(t string, ss []string) map[string]any { return map[string]any{"t": t, "v": ss} }
+func rwVal(t string, ss []string) map[string]any {
+	in := make([]string, len(ss))
+	for i, s := range ss {
+		in[i] = rwIn(s)
+	}
+	return map[string]any{"t": t, "v": in}
+}
 
 func numText(v cty.Value) string {
 	f := v.AsBigFloat()
